@@ -83,21 +83,54 @@ func c11Desc(p *connectedPlayer) string {
 // checks the quiescent end state.
 func (c *c11Check) inv(final bool) {
 	p := c.w.Proxy
-	c.step++
 	byID := map[uuid.UUID]*connectedPlayer{}
-	for _, id := range []uuid.UUID{c11U1, c11U2} {
-		if pl := p.Player(id); pl != nil {
-			byID[id] = pl.(*connectedPlayer)
-		}
-	}
 	byName := map[string]*connectedPlayer{}
-	for _, n := range []string{"bob", "eve"} {
-		if pl := p.PlayerByName(n); pl != nil {
-			byName[n] = pl.(*connectedPlayer)
+	var count, nListed int
+	if final {
+		// quiescent end state: through the public accessors
+		for _, id := range []uuid.UUID{c11U1, c11U2} {
+			if pl := p.Player(id); pl != nil {
+				byID[id] = pl.(*connectedPlayer)
+			}
+		}
+		for _, n := range []string{"bob", "eve"} {
+			if pl := p.PlayerByName(n); pl != nil {
+				byName[n] = pl.(*connectedPlayer)
+			}
+		}
+		count = p.PlayerCount()
+		nListed = len(p.Players())
+	} else {
+		// at a scheduling point: all threads are parked. The accessors' RLock would refuse while a writer
+		// is merely WAITING for muP (and the observation of who registered when would get gaps), so the
+		// indices are read directly whenever no writer HOLDS the lock - exactly what the accessors return.
+		if p.muP.WriteHeld() {
+			return
+		}
+		for _, id := range []uuid.UUID{c11U1, c11U2} {
+			if pl := p.playerIDs[id]; pl != nil {
+				byID[id] = pl
+			}
+		}
+		for _, n := range []string{"bob", "eve"} {
+			if pl := p.playerNames[n]; pl != nil {
+				byName[n] = pl
+			}
+		}
+		count = len(p.playerIDs)
+		nListed = len(p.playerIDs)
+		for k, pl := range p.playerIDs {
+			if k != c11U1 && k != c11U2 || pl == nil {
+				c.fail("index-key-mismatch", "playerIDs holds unexpected entry %v -> %s", k, c11Desc(pl))
+			}
+		}
+		for k, pl := range p.playerNames {
+			if k != "bob" && k != "eve" || pl == nil {
+				c.fail("index-key-mismatch", "playerNames holds unexpected entry %q -> %s", k, c11Desc(pl))
+			}
 		}
 	}
-	count := p.PlayerCount()
-	listed := p.Players()
+	c.step++
 	state := func() string {
 		var parts []string
 		for _, id := range []uuid.UUID{c11U1, c11U2} {
@@ -106,7 +139,7 @@ func (c *c11Check) inv(final bool) {
 		for _, n := range []string{"bob", "eve"} {
 			parts = append(parts, fmt.Sprintf("name[%s]=%s", n, c11Desc(byName[n])))
 		}
-		parts = append(parts, fmt.Sprintf("count=%d listed=%d", count, len(listed)))
+		parts = append(parts, fmt.Sprintf("count=%d listed=%d", count, nListed))
 		for _, s := range c.w.sessions {
 			parts = append(parts, fmt.Sprintf("%v{accepted=%v closed=%v disc=%v}", s, s.accepted, s.closed(), s.discCalled))
 		}
@@ -140,8 +173,8 @@ func (c *c11Check) inv(final bool) {
 	if count != len(perID) {
 		c.fail("count-mismatch", "PlayerCount()=%d but %d UUIDs are registered; %s", count, len(perID), state())
 	}
-	if len(listed) != count {
-		c.fail("count-mismatch", "Players() lists %d players but PlayerCount()=%d; %s", len(listed), count, state())
+	if nListed != count {
+		c.fail("count-mismatch", "Players() lists %d players but PlayerCount()=%d; %s", nListed, count, state())
 	}
 	if !c.kick {
 		// at most one per case-insensitive username, and both lookups describe the same set
@@ -208,6 +241,12 @@ func (c *c11Check) inv(final bool) {
 		}
 	}
 	if final {
+		// name lookup is case-insensitive: the exact spelling the player logged in with finds the same entry
+		for _, s := range c.w.sessions {
+			if pl := p.PlayerByName(s.name); (pl == nil) != (byName[strings.ToLower(s.name)] == nil) || (pl != nil && pl.(*connectedPlayer) != byName[strings.ToLower(s.name)]) {
+				c.fail("name-lookup-case", "PlayerByName(%q) and PlayerByName(%q) disagree; %s", s.name, strings.ToLower(s.name), state())
+			}
+		}
 		for _, s := range c.w.sessions {
 			if s.player() == nil || !s.closed() {
 				continue
@@ -241,19 +280,6 @@ func (c *c11Check) outcome() string {
 	return strings.Join(parts, ",") + "|" + strings.Join(ds, ",")
 }
 
-// c11Clock works around the semantics of sched.Yield (inserted before registerConnection's
-// `goto retry`): a yielding thread stays disabled until ANOTHER thread makes a step, although the
-// retrying thread itself made the progress it waits for (it disconnected the existing player). A
-// thread that only performs a few empty scheduling points supplies those steps; a genuine endless
-// retry still ends as a deadlock/livelock finding once the clock has run out.
-func c11Clock(x *sched.X) {
-	x.Go("clock", func() {
-		for i := 0; i < 3; i++ {
-			sched.Point("tick", nil)
-		}
-	})
-}
-
 // ---------------------------------------------------------------- sequential histories
 
 type c11Replay struct {
@@ -272,7 +298,6 @@ func c11RunHistory(cfg c11Cfg, ops []string) (fails map[string]*sched.Failure, o
 		w := g5NewWorld(cfg.online, cfg.kick)
 		ck := newC11Check(w, cfg.kick, x.Fail)
 		x.OnPoint(func() { ck.inv(false) })
-		c11Clock(x)
 		for _, op := range ops {
 			var k int
 			fmt.Sscanf(op[1:], "%d", &k)
@@ -393,9 +418,6 @@ func c11Scenario(name string, cfg c11Cfg, pre []int, threads [][]c11Op, quick, t
 			plans = append(plans, pl)
 		}
 		x.OnPoint(func() { ck.inv(false) })
-		if cfg.kick {
-			c11Clock(x)
-		}
 		for ti, pl := range plans {
 			x.Go(fmt.Sprintf("t%d", ti+1), func() {
 				for _, st := range pl {
@@ -429,7 +451,7 @@ func c11Scenarios() []schedrun.Scenario {
 	return []schedrun.Scenario{
 		// two simultaneous logins colliding by UUID+name / name only / UUID only
 		c11Scenario("2logins-same-uuid-name-variant", off, nil, [][]c11Op{{L(0)}, {L(1)}}, 2, 3),
-		c11Scenario("2logins-same-name-other-uuid", off, nil, [][]c11Op{{L(0)}, {L(2)}}, 2, 3),
+		c11Scenario("2logins-same-name-other-uuid", off, nil, [][]c11Op{{L(0)}, {L(2)}}, 1, 2),
 		c11Scenario("2logins-same-uuid-other-name", on, nil, [][]c11Op{{L(0)}, {L(3)}}, 2, 3),
 		// a duplicate is rejected / denied while the original leaves or a third player joins
 		c11Scenario("established-leaves-vs-duplicate-login", off, []int{0}, [][]c11Op{{X(0)}, {L(1)}}, 2, 3),
@@ -441,7 +463,7 @@ func c11Scenarios() []schedrun.Scenario {
 		c11Scenario("established-vs-2-newcomers", kick, []int{0}, [][]c11Op{{L(1)}, {L(3)}}, 2, 3),
 		c11Scenario("established-leaves-vs-newcomer", kick, []int{0}, [][]c11Op{{X(0)}, {L(1)}}, 2, 3),
 		c11Scenario("denied-duplicate-vs-name-collider", kick, []int{0}, [][]c11Op{{D(1)}, {l(2)}}, 2, 3),
-		c11Scenario("name-replaced-then-leaves", kick, []int{0}, [][]c11Op{{l(2)}, {L(2)}}, 2, 3),
+		c11Scenario("name-replaced-then-leaves", kick, []int{0}, [][]c11Op{{l(2)}, {L(2)}}, 1, 2),
 	}
 }
 
